@@ -8,10 +8,19 @@ compute function and drops metrics with 0 points).
 import Otel.C02.Model
 namespace Otel.C02
 
+/-- what the reader's AggregationSelector (or its exporter's `Aggregation`) answers for the two sum kinds:
+`rejUpdown`/`rejCounter`/`rejBoth` = `AggregationLastValue{}` for that kind, which `isAggregatorCompatible`
+(pipeline.go:531-577) rejects with an error at instrument creation; `dropUpdown` = `AggregationDrop{}` for up-down
+counters (no error, no aggregate function). -/
+inductive Rej where
+  | none | rejUpdown | rejCounter | rejBoth | dropUpdown
+deriving Repr, BEq, DecidableEq
+
 structure ReaderCfg where
   periodic : Bool
   tc : Temporality
   tu : Temporality
+  rej : Rej := .none
 deriving Repr
 
 structure InstCfg where
@@ -22,9 +31,22 @@ deriving Repr
 /-- `reader.temporality(kind)` as configured by the harness' selector -/
 def tempFor (r : ReaderCfg) (i : InstCfg) : Temporality := if i.updown then r.tu else r.tc
 
+/-- no aggregate function exists for (reader, instrument): `inserter.Instrument` returned an error (incompatible
+aggregation) or the drop aggregation for this reader.  `resolver.Aggregators` (pipeline.go:637-649) joins the error
+and CONTINUES with the remaining readers, so every other reader still gets its aggregate function; the instrument
+constructor returns the error together with a usable instrument. -/
+def absent (r : ReaderCfg) (i : InstCfg) : Bool :=
+  match r.rej with
+  | .none => false
+  | .rejUpdown => i.updown
+  | .rejCounter => !i.updown
+  | .rejBoth => true
+  | .dropUpdown => i.updown
+
 structure Reader where
   cfg : ReaderCfg
-  aggs : List Sum
+  /-- one entry per instrument; `none` = stream absent for this reader -/
+  aggs : List (Option Sum)
   down : Bool := false
 deriving Repr
 
@@ -40,6 +62,9 @@ deriving Repr
 structure Sys where
   insts : List InstCfg
   readers : List Reader
+  /-- an observable instrument with a callback is registered: `pipeline.produce` consults `ctx.Err()` after each
+  callback (pipeline.go:128-153) — and nowhere else -/
+  hasCb : Bool := false
   clock : Nat := 1
   shut : Bool := false
   recs : List Rec := []
@@ -52,21 +77,36 @@ inductive Op where
   | flush
   | shut
   | rshut (r : Nat)
+  /-- Collect whose context is cancelled while instrument `k` is being aggregated -/
+  | colx (r k : Nat)
+  /-- Collect with an already-cancelled context -/
+  | colc (r : Nat)
+  /-- Collect whose context is cancelled by the observable callback -/
+  | colb (r : Nat)
+  /-- interval export / ForceFlush whose timeout expires while instrument `k` is being aggregated -/
+  | tickx (r k : Nat)
+  | flushx (k : Nat)
 deriving Repr
 
-def Sys.init (rs : List ReaderCfg) (is : List InstCfg) : Sys :=
+def Sys.init (rs : List ReaderCfg) (is : List InstCfg) (hasCb : Bool := false) : Sys :=
   { insts := is
-    readers := rs.map fun rc => { cfg := rc, aggs := is.map fun i => ({ monotonic := !i.updown } : Sum) } }
+    hasCb := hasCb
+    readers := rs.map fun rc =>
+      { cfg := rc
+        aggs := is.map fun i => if absent rc i then none else some ({ monotonic := !i.updown } : Sum) } }
 
 /-- `pipeline.produce` restricted to sums: run every compute function, keep metrics with ≥ 1 point -/
-def collectAggs (rc : ReaderCfg) (t : Nat) : List InstCfg → List Sum → Nat →
-    List Sum × List (Nat × Temporality × Bool × List (Attr × Int))
-  | i :: is, s :: ss, j =>
+def collectAggs (rc : ReaderCfg) (t : Nat) : List InstCfg → List (Option Sum) → Nat →
+    List (Option Sum) × List (Nat × Temporality × Bool × List (Attr × Int))
+  | i :: is, some s :: ss, j =>
     let tp := tempFor rc i
     let (s', pts) := s.collect tp t
     let (ss', out) := collectAggs rc t is ss (j + 1)
     let stream := (j, tp, s.monotonic, sortByAttr (pts.map fun p => (p.attr, p.val.n)))
-    (s' :: ss', if pts.isEmpty then out else stream :: out)
+    (some s' :: ss', if pts.isEmpty then out else stream :: out)
+  | _ :: is, none :: ss, j =>
+    let (ss', out) := collectAggs rc t is ss (j + 1)
+    (none :: ss', out)
   | _, ss, _ => (ss, [])
 
 /-- Collect of reader `r` (which must be alive), recorded under stamp `i` -/
@@ -91,24 +131,49 @@ def Sys.readerShutdown (s : Sys) (i r : Nat) : Sys :=
     else if rd.cfg.periodic then (s.collectAt i r).setDown r
     else s.setDown r
 
+/-- Reader.Collect with a context that stays usable until aggregation starts -/
+def Sys.collectOp (s : Sys) (i r : Nat) : Sys :=
+  match s.readers[r]? with
+  | none => s
+  | some rd =>
+    if rd.down then { s with recs := s.recs ++ [{ op := i, reader := r, ok := false, streams := [] }] }
+    else s.collectAt i r
+
+/-- Reader.Collect whose context is already done when the callback loop consults it: with a callback registered
+`produce` erases `rm` and returns the context error BEFORE any compute function ran — an error, no data, and no
+aggregator is touched; without callbacks the context is never consulted and the collection is an ordinary one. -/
+def Sys.collectAbandoned (s : Sys) (i r : Nat) : Sys :=
+  match s.readers[r]? with
+  | none => s
+  | some rd =>
+    if rd.down || s.hasCb then { s with recs := s.recs ++ [{ op := i, reader := r, ok := false, streams := [] }] }
+    else s.collectAt i r
+
+def Sys.tickOp (s : Sys) (i r : Nat) : Sys :=
+  match s.readers[r]? with
+  | none => s
+  | some rd => if rd.cfg.periodic && !rd.down then s.collectAt i r else s
+
+def Sys.flushOp (s : Sys) (i : Nat) : Sys :=
+  (List.range s.readers.length).foldl (fun s r =>
+    match s.readers[r]? with
+    | some rd => if rd.cfg.periodic && !rd.down then s.collectAt i r else s
+    | none => s) s
+
 def Sys.step (s : Sys) (i : Nat) : Op → Sys
   | .add j a v =>
-    { s with readers := s.readers.map fun rd => { rd with aggs := rd.aggs.modify j fun g => g.measure a v i } }
-  | .col r =>
-    match s.readers[r]? with
-    | none => s
-    | some rd =>
-      if rd.down then { s with recs := s.recs ++ [{ op := i, reader := r, ok := false, streams := [] }] }
-      else s.collectAt i r
-  | .tick r =>
-    match s.readers[r]? with
-    | none => s
-    | some rd => if rd.cfg.periodic && !rd.down then s.collectAt i r else s
-  | .flush =>
-    (List.range s.readers.length).foldl (fun s r =>
-      match s.readers[r]? with
-      | some rd => if rd.cfg.periodic && !rd.down then s.collectAt i r else s
-      | none => s) s
+    { s with readers := s.readers.map fun rd =>
+        { rd with aggs := rd.aggs.modify j fun g => g.map fun g => g.measure a v i } }
+  | .col r => s.collectOp i r
+  -- the context is consulted only in the callback loops: once aggregation has started its cancellation or
+  -- expiry changes nothing — the collection completes, returns all its data and a nil error
+  | .colx r _ => s.collectOp i r
+  | .colc r => s.collectAbandoned i r
+  | .colb r => s.collectAbandoned i r
+  | .tick r => s.tickOp i r
+  | .tickx r _ => s.tickOp i r
+  | .flush => s.flushOp i
+  | .flushx _ => s.flushOp i
   | .shut =>
     if s.shut then s
     else { (List.range s.readers.length).foldl (fun s r => s.readerShutdown i r) s with shut := true }
@@ -118,7 +183,7 @@ def Sys.runFrom (s : Sys) (i : Nat) : List Op → Sys
   | [] => s
   | op :: ops => (s.step i op).runFrom (i + 1) ops
 
-def Sys.run (rs : List ReaderCfg) (is : List InstCfg) (ops : List Op) : Sys :=
-  (Sys.init rs is).runFrom 0 ops
+def Sys.run (rs : List ReaderCfg) (is : List InstCfg) (ops : List Op) (hasCb : Bool := false) : Sys :=
+  (Sys.init rs is hasCb).runFrom 0 ops
 
 end Otel.C02
